@@ -644,3 +644,54 @@ def enum_box_faces(tier):
 
 
 SUBS.append(Sub("box_faces", check_lsv, enum=enum_box_faces, doc="linear traction on every face / edge of structured boxes"))
+
+
+# ------------------------------------------------------------------------------------------
+# (added by the lead, round 9) pressure on the faces of an extruded body whose source surface is made of several surfaces: a FILLED
+# inclusion drawn in the same or in the opposite sense of rotation as the contour.  Resultant p x area along the face normal and
+# moment of a uniform density, on the source face and on the face opposite to it
+
+
+def enum_pressure_filled(tier):
+    for et in ("TETRA4", "PRISM6", "HEXA8", "TETRA10"):
+        for clockwise in (False, True):
+            for contour_cw in (False, True):
+                yield dict(elemType=et, clockwise=clockwise, contour_cw=contour_cw)
+
+
+def check_pressure_filled(case, rec):
+    from EasyFEA import ElemType, Mesher
+    from EasyFEA.Geoms import Point, Points
+
+    L, H, D, p = 2.0, 1.0, 1.5, 3.0
+    cont = [Point(0, 0), Point(L, 0), Point(L, H), Point(0, H)]
+    inc = [Point(1.2, 0.2), Point(1.8, 0.2), Point(1.8, 0.8), Point(1.2, 0.8)]
+    if case["contour_cw"]:
+        cont = [cont[0]] + cont[:0:-1]
+    if case["clockwise"]:
+        inc = [inc[0]] + inc[:0:-1]
+    mesh = Mesher().Mesh_Extrude(Points(cont, 0.5), [Points(inc, 0.3, isFilled=True)], [0, 0, D], [2], ElemType(case["elemType"]))
+    sig = dict(elemType=case["elemType"], inclusion="cw" if case["clockwise"] else "ccw", contour="cw" if case["contour_cw"] else "ccw")
+    rec.label("filled:" + case["elemType"], "inclusion:" + sig["inclusion"], "contour:" + sig["contour"])
+    rec.close(mesh.volume - L * H * D, L * H * D, 1e-10, "harness_volume", "volume of the extruded body (harness)", **sig)
+    simu = Simulations.Elastic(mesh, Models.Elastic.Isotropic(3))
+    X = np.asarray(mesh.coord, float)
+    for name, zf in (("source face z=0", 0.0), ("opposite face z=D", D)):
+        nodes = np.where(np.abs(X[:, 2] - zf) < 1e-9)[0]
+        simu.Bc_Init()
+        simu.add_pressureLoad(nodes, p)
+        f = np.asarray(simu.Bc_vector_Neumann(), float).reshape(-1, 3)
+        F = f.sum(0)
+        M = np.cross(X, f).sum(0)
+        A = L * H
+        s2 = dict(sig, face=name)
+        rec.close(np.linalg.norm(F) - p * A, p * A, 1e-10, "pressure_magnitude", f"{case['elemType']} {name}, inclusion {sig['inclusion']} / contour "
+                  f"{sig['contour']}: |resultant| = {np.linalg.norm(F)!r}, p x area = {p * A!r}", **s2)
+        rec.close(F[:2], p * A, 1e-10, "pressure_direction", f"{name}: resultant {F} is not along the face normal (0, 0, +-1)", **s2)
+        c = np.array([L / 2, H / 2, zf])
+        rec.close(M - np.cross(c, F), p * A * (L + H + D), 1e-10, "pressure_moment", f"{name}: moment {M} vs centroid x resultant {np.cross(c, F)}", **s2)
+    rec.nontrivial(True)
+
+
+SUBS.append(Sub("pressure_filled_inclusion", check_pressure_filled, enum=enum_pressure_filled,
+                doc="volume element type x sense of rotation of a filled inclusion x sense of the contour: pressure on the source face and on the opposite one"))
